@@ -12,10 +12,12 @@
 
   Each stage is modelled by its EDIT DISCIPLINE as mongomock/aggregate.py has it today
   (table `Disc`, reference value `Disc.reference`, re-extracted from the source on every run into
-  `Generated/AggDiscipline.lean`):
+  `Generated/AggDiscipline.lean`; the reference is the discipline AFTER the repairs
+  `sample-pops-size`, `facet-sibling-*`, `literal-written`, the table keeps the old behaviour
+  expressible so that a regression shows as a different table):
     * `aggregate` (collection.py:1826-1828) works on `find()` copies (deep, new objects);
     * `$match/$sort/$skip/$limit/$sample` hand on the same document objects in a new list;
-    * `$sample` (1354-1364) POPS `size` out of the caller's option dict;
+    * `$sample` reads `size` from the caller's option dict (it used to POP it: `samplePops`);
     * `$addFields/$set` (1552-1570): `dict(doc)` (shallow), a dotted path then descends into the
       SHARED sub-document and writes there;
     * `$lookup` (1154-1164) writes `doc[as]` into the input document itself, the joined documents
@@ -23,15 +25,18 @@
     * `$unwind` (1379-1420) deep-copies the document but re-attaches the ORIGINAL element;
     * `$project/$replaceRoot/$count` build new top-level documents around shared values;
     * expressions: a field path / `$$ROOT` evaluates to the very sub-object, `$literal` and
-      constant lists to the PIPELINE's own object, a document constructor to a new dict;
-    * `$facet` (1593-1598) hands ONE list to every sub-pipeline;
+      constant lists to a deep copy of the pipeline's object (they used to evaluate to the
+      PIPELINE's own object: `literal`, `constArray` = `.none`), a document constructor to a new
+      dict;
+    * `$facet` hands every sub-pipeline its own deep copy of the stage's input (it used to hand
+      ONE list to all of them: `facetSharesInput`);
     * `$out` (1573-1580): drop the target if non-empty, `insert_many` (stores copies, writes the
       generated `_id` into the passed document), pass the list through.
 
-  An object a run allocates and leaves INSIDE the caller's pipeline object (class `literal-written`)
-  belongs to the caller afterwards; whoever chains runs must rename it out of the `tmp` name space
-  before the next run (the driver does: `Driver.C16.adopt`).  The theorem `repeatable` assumes the
-  pipeline object unchanged, where this cannot happen.
+  Under a discipline that lets a run leave an object it allocated INSIDE the caller's pipeline
+  object (the former class `literal-written`) that object belongs to the caller afterwards; whoever
+  chains runs must rename it out of the `tmp` name space before the next run (the driver does:
+  `Driver.C16.adopt`).  Under `Disc.reference` this cannot happen (`pipeline_arg_unchanged`).
 
   Value-level decisions that do not concern identity (which documents `$match` keeps, in which
   order `$sort` puts them, which foreign documents join) are parameters (`Sem`); the theorems hold
@@ -218,8 +223,12 @@ structure Disc where
   unwindDoc : Copy
   /-- `$sample` removes `size` from the option dict it was given (`options.pop`) -/
   samplePops : Bool
-  /-- `$facet` hands every branch the same list (true) rather than a copy per branch -/
+  /-- `$facet` hands every branch the same list (true) rather than a deep copy per branch -/
   facetSharesInput : Bool
+  /-- `$literal`: how the operand (an object of the pipeline) is handed out -/
+  literal : Copy
+  /-- an array constant in expression position: how the pipeline's list is handed out -/
+  constArray : Copy
   /-- `$out`: `insert_many` stores copies of the documents (deep), not the objects -/
   outStores : Copy
   deriving DecidableEq, Repr, Inhabited
@@ -227,7 +236,13 @@ structure Disc where
 /-- the discipline of /repo as read (see the header); `Generated.AggDiscipline` is compared with it -/
 def Disc.reference : Disc :=
   { source := .deep, lookupForeign := .deep, lookupWritesInput := true, addFieldsTop := .shallow,
-    unwindDoc := .deep, samplePops := true, facetSharesInput := true, outStores := .deep }
+    unwindDoc := .deep, samplePops := false, facetSharesInput := false, literal := .deep,
+    constArray := .deep, outStores := .deep }
+
+/-- the discipline before the repairs (kept for the regression witnesses of Props/C16.lean) -/
+def Disc.unrepaired : Disc :=
+  { Disc.reference with samplePops := true, facetSharesInput := true, literal := .none,
+                        constArray := .none }
 
 /-! ### the world -/
 
@@ -289,7 +304,8 @@ inductive AExpr where
   | const (v : Val)
   | field (path : List String)           -- "$a.b": the sub-object itself
   | root                                  -- "$$ROOT": the document itself
-  | lit (loc : List Nat)                  -- `$literal` / constant list: the pipeline's own object
+  | lit (loc : List Nat)                  -- `$literal`: the pipeline's object at `loc`, handed out by `Disc.literal`
+  | carr (loc : List Nat)                 -- constant list: the pipeline's object at `loc`, by `Disc.constArray`
   | obj (kids : List (String × AExpr))    -- {k: e, …}: a new dict
   | unmodelled
   deriving Inhabited
@@ -333,24 +349,31 @@ def getPath : List String → HV → R (Option HV)
 
 mutual
   /-- `_parse_expression(e, doc, ignore_missing_keys=True)`: `none` = KeyError -/
-  def evalExpr (pipe doc : HV) : AExpr → Nat → R (Option HV × Nat)
+  def evalExpr (D : Disc) (pipe doc : HV) : AExpr → Nat → R (Option HV × Nat)
     | .const v, n => .ok (some (.atom v), n)
     | .field p, n => (getPath p doc).map (fun r => (r, n))
     | .root, n => .ok (some doc, n)
-    | .lit loc, n => .ok (subAt loc pipe, n)
+    | .lit loc, n =>
+      match subAt loc pipe with
+      | some v => .ok (some (D.literal.run v n).1, (D.literal.run v n).2)
+      | none => .ok (none, n)
+    | .carr loc, n =>
+      match subAt loc pipe with
+      | some v => .ok (some (D.constArray.run v n).1, (D.constArray.run v n).2)
+      | none => .ok (none, n)
     | .obj kids, n =>
-      match evalKids pipe doc kids (n + 1) with
+      match evalKids D pipe doc kids (n + 1) with
       | .ok (ks, n') => .ok (some (.node (.tmp n) true ks), n')
       | .error e => .error e
     | .unmodelled, _ => .error .unmodelled
-  def evalKids (pipe doc : HV) : List (String × AExpr) → Nat → R (Kids × Nat)
+  def evalKids (D : Disc) (pipe doc : HV) : List (String × AExpr) → Nat → R (Kids × Nat)
     | [], n => .ok ([], n)
     | (k, e) :: r, n =>
-      match evalExpr pipe doc e n with
+      match evalExpr D pipe doc e n with
       | .error err => .error err
-      | .ok (none, n') => evalKids pipe doc r n'          -- missing keys are skipped
+      | .ok (none, n') => evalKids D pipe doc r n'          -- missing keys are skipped
       | .ok (some v, n') =>
-        match evalKids pipe doc r n' with
+        match evalKids D pipe doc r n' with
         | .ok (ks, n'') => .ok ((k, v) :: ks, n'')
         | .error err => .error err
 end
@@ -393,26 +416,26 @@ def setOut (w : World) (j : Nat) (path : List String) (v : HV) : R World :=
   | _, _ => .ok w
 
 /-- one field of `$addFields` over all documents (inner loop of 1557-1569) -/
-def addField (w : World) (path : List String) (e : AExpr) : Nat → Nat → R World
+def addField (D : Disc) (w : World) (path : List String) (e : AExpr) : Nat → Nat → R World
   | 0, _ => .ok w
   | fuel + 1, j =>
     match w.work[j]? with
     | none => .ok w
     | some inDoc =>
-      match evalExpr w.pipe inDoc e w.nextTmp with
+      match evalExpr D w.pipe inDoc e w.nextTmp with
       | .error err => .error err
-      | .ok (none, n') => addField { w with nextTmp := n' } path e fuel (j + 1)
+      | .ok (none, n') => addField D { w with nextTmp := n' } path e fuel (j + 1)
       | .ok (some v, n') =>
         match setOut { w with nextTmp := n' } j path v with
-        | .ok w' => addField w' path e fuel (j + 1)
+        | .ok w' => addField D w' path e fuel (j + 1)
         | .error err => .error err
 termination_by structural fuel => fuel
 
-def addFieldsAll (w : World) : List (String × AExpr) → R World
+def addFieldsAll (D : Disc) (w : World) : List (String × AExpr) → R World
   | [] => .ok w
   | (f, e) :: r =>
-    match addField w (splitDots f) e w.work.length 0 with
-    | .ok w' => addFieldsAll w' r
+    match addField D w (splitDots f) e w.work.length 0 with
+    | .ok w' => addFieldsAll D w' r
     | .error err => .error err
 
 /-! ### the other stages -/
@@ -476,35 +499,35 @@ def projKeep (incl : List String) : Kids → Kids
   | [] => []
   | (k, v) :: r => if incl.contains k then (k, v) :: projKeep incl r else projKeep incl r
 
-def projectDoc (pipe : HV) (noId : Bool) (incl : List String) (computed : List (String × AExpr))
+def projectDoc (D : Disc) (pipe : HV) (noId : Bool) (incl : List String) (computed : List (String × AExpr))
     (doc : HV) (n : Nat) : R (HV × Nat) :=
   match doc with
   | .node _ true kids =>
-    match evalKids pipe doc computed (n + 1) with
+    match evalKids D pipe doc computed (n + 1) with
     | .error e => .error e
     | .ok (ks, n') =>
       let keep := projKeep (if noId then incl else incl ++ ["_id"]) kids
       .ok (.node (.tmp n) true (ks.foldl (fun acc kv => kset kv.1 kv.2 acc) keep), n')
   | _ => .error .unmodelled
 
-def projectAll (pipe : HV) (noId : Bool) (incl : List String) (computed : List (String × AExpr)) :
+def projectAll (D : Disc) (pipe : HV) (noId : Bool) (incl : List String) (computed : List (String × AExpr)) :
     List HV → Nat → R (List HV × Nat)
   | [], n => .ok ([], n)
   | d :: r, n =>
-    match projectDoc pipe noId incl computed d n with
+    match projectDoc D pipe noId incl computed d n with
     | .error e => .error e
     | .ok (v, n') =>
-      match projectAll pipe noId incl computed r n' with
+      match projectAll D pipe noId incl computed r n' with
       | .ok (vs, n'') => .ok (v :: vs, n'')
       | .error e => .error e
 
-def replaceRootAll (pipe : HV) (e : AExpr) : List HV → Nat → R (List HV × Nat)
+def replaceRootAll (D : Disc) (pipe : HV) (e : AExpr) : List HV → Nat → R (List HV × Nat)
   | [], n => .ok ([], n)
   | d :: r, n =>
-    match evalExpr pipe d e n with
+    match evalExpr D pipe d e n with
     | .error err => .error err
     | .ok (some (.node i true ks), n') =>
-      match replaceRootAll pipe e r n' with
+      match replaceRootAll D pipe e r n' with
       | .ok (vs, n'') => .ok (.node i true ks :: vs, n'')
       | .error err => .error err
     | .ok _ => .error .opFail
@@ -566,6 +589,12 @@ def sampleStage (D : Disc) (sem : Sem) (loc : List Nat) (w : World) : R World :=
     | some _ => .error .unmodelled
   | _ => .error .opFail
 
+/-- the one document `$facet` returns: `{title_j: outs_j}`; the dict is `tmp n`, the lists follow -/
+def facetDoc (n : Nat) (titles : List String) (outs : List (List HV)) : HV :=
+  .node (.tmp n) true
+    (((titles.zip outs).zipIdx).map (fun (tl, i) =>
+      (tl.1, HV.node (.tmp (n + 1 + i)) false (tl.2.map (fun v => ("", v))))))
+
 mutual
   def runStage (D : Disc) (sem : Sem) (w : World) : Stage → R World
     | .select op opts =>
@@ -577,11 +606,11 @@ mutual
       if fields.isEmpty then .error .opFail
       else
         let cp := D.addFieldsTop.runL w.work w.nextTmp
-        match addFieldsAll { w with out := cp.1, nextTmp := cp.2 } fields with
+        match addFieldsAll D { w with out := cp.1, nextTmp := cp.2 } fields with
         | .ok w' => .ok { w' with work := w'.out, out := [] }
         | .error e => .error e
     | .project noId incl computed =>
-      match projectAll w.pipe noId incl computed w.work w.nextTmp with
+      match projectAll D w.pipe noId incl computed w.work w.nextTmp with
       | .ok (vs, n) => .ok { w with work := vs, nextTmp := n }
       | .error e => .error e
     | .unwind key preserve =>
@@ -593,7 +622,7 @@ mutual
         .ok { w with work := r.1, nextTmp := r.2 }
     | .lookup frm loc frn as => lookupAll D sem frm loc frn as w w.work.length 0
     | .replaceRoot e =>
-      match replaceRootAll w.pipe e w.work w.nextTmp with
+      match replaceRootAll D w.pipe e w.work w.nextTmp with
       | .ok (vs, n) => .ok { w with work := vs, nextTmp := n }
       | .error err => .error err
     | .count name =>
@@ -604,13 +633,9 @@ mutual
       | .ok w' =>
         -- stack = input :: out_k … out_1 :: rest
         let outs := (w'.stack.drop 1).take branches.length
-        let fields := (branches.map (·.1)).zip outs.reverse
-        let n := w'.nextTmp
-        let doc : HV := .node (.tmp n) true
-          ((fields.zipIdx).map (fun (tl, i) =>
-            (tl.1, HV.node (.tmp (n + 1 + i)) false (tl.2.map (fun v => ("", v))))))
-        .ok { w' with work := [doc], stack := w'.stack.drop (1 + branches.length),
-                      nextTmp := n + 1 + branches.length }
+        .ok { w' with work := [facetDoc w'.nextTmp (branches.map (·.1)) outs.reverse],
+                      stack := w'.stack.drop (1 + branches.length),
+                      nextTmp := w'.nextTmp + 1 + branches.length }
       | .error e => .error e
     | .out target => outStage D sem target w
     | .fail e => .error e
@@ -620,13 +645,16 @@ mutual
       match runStage D sem w s with
       | .ok w' => runStages D sem w' r
       | .error e => .error e
-  /-- every branch starts from the head of the stack — the input list AS IT IS NOW -/
+  /-- every branch starts from the head of the stack — the input list AS IT IS NOW — or from a
+      deep copy of it.  `copy.deepcopy(in_collection)` keeps the sharing inside the list (memo),
+      `deepTmp` does not: an input in which one object occurs twice is outside the model. -/
   def runBranches (D : Disc) (sem : Sem) (w : World) : List (String × List Stage) → R World
     | [] => .ok w
     | (_, sub) :: r =>
       match w.stack with
       | [] => .error .other
       | input :: _ =>
+        if !D.facetSharesInput && hasDup (idsL input) then .error .unmodelled else
         let start := if D.facetSharesInput then (input, w.nextTmp) else Copy.deep.runL input w.nextTmp
         match runStages D sem { w with work := start.1, nextTmp := start.2 } sub with
         | .ok w' =>
@@ -648,7 +676,7 @@ mutual
       else if isDollar s then .field (splitDots (String.ofList (s.toList.drop 1)))
       else .const (.str s)
     | .atom v => .const v
-    | .node _ false _ => .lit loc
+    | .node _ false _ => .carr loc
     | .node _ true [(k, v)] =>
       if k == "$literal" then .lit (loc ++ [0])
       else if isDollar k then .unmodelled
@@ -830,7 +858,19 @@ def after (D : Disc) (sem : Sem) (s : State) (coll : String) : Option State :=
   | .ok (_, s') => some s'
   | .error _ => none
 
-/-! ### syntactic classes used by the theorems -/
+/-! ### classes used by the theorems -/
+
+/-- the name-space convention of the model: what persists between calls (collections, the
+    caller's pipeline object) contains no run-local identity -/
+def State.persistent (s : State) : Bool :=
+  s.colls.all (fun nl => allL (fun i => !i.isTmp) nl.2) && s.pipe.all (fun i => !i.isTmp)
+
+/-- every document has an `_id` (then `$out`/`insert_many` writes into none of them) -/
+def HV.hasId : HV → Bool
+  | .node _ true kids => (kget "_id" kids).isSome
+  | _ => false
+
+def allHaveId (l : List HV) : Bool := l.all HV.hasId
 
 /-- stages that only build new lists / new top-level documents: no in-place write at all -/
 def Stage.pure : Stage → Bool
